@@ -378,6 +378,9 @@ def profile_for(pid, tier):
     elif pid == "C35":
         P["ops"].update({"importance": 6, "update": 6})
         P["perts"].update({"enc:mask-true": 5, "enc:mask-true-traced": 6, "enc:mask-false": 6})
+        P["mask_jit"] = 0.5
+        G["choice_switch"] = 0.35
+        G["root_kinds"] = dict(G["kinds"], static=10)
         P["pert_rate"] = 0.9
         P["argchange"] = 0.7
         G["kinds"].update({"vmap": 5, "scan": 4})
@@ -719,8 +722,20 @@ def gen_session(session_seed, pid, tier, profile=None):
             for i, st in enumerate(steps):
                 if rng.random() < P["pert_rate"]:
                     k1 = gen.wchoice(rng, kinds_on)
+                    mj = P.get("mask_jit", 0.0)
+                    if mj > 0:
+                        # C35 profile: Mask encodings only matter where a constraint is passed
+                        has_c = bool(st.get("constraint"))
+                        mk = {k: w for k, w in kinds_on.items() if k.startswith("enc:mask")}
+                        ok_ = {k: w for k, w in kinds_on.items() if not k.startswith("enc:mask")}
+                        if has_c and mk and rng.random() < 0.8:
+                            k1 = gen.wchoice(rng, mk)
+                        elif not has_c and k1.startswith("enc:mask") and ok_:
+                            k1 = gen.wchoice(rng, ok_)
                     ps = [k1]
-                    if rng.random() < 0.3:
+                    if mj > 0 and k1.startswith("enc:mask") and rng.random() < mj:
+                        ps.append("stage:jit")  # the constraint is a jit argument: its flags are tracers
+                    elif rng.random() < 0.3:
                         k2 = gen.wchoice(rng, kinds_on)
                         if k2.split(":")[0] != k1.split(":")[0]:
                             ps.append(k2)
